@@ -214,6 +214,10 @@ def _subst_atom(a, mapping, simplify, memo):
   if a in mapping:
     return to_nf(mapping[a])
   if a[0] == "app":
+    if a[1].startswith("reduce_") and not mapping.get("__into_reductions__"):
+      # inside a reduction x is a bound variable ranging over all elements:
+      # element-wise facts (sign of this element, region of x) do not apply
+      return NF.atom(a)
     new_args = tuple(arg.subst(mapping, simplify, memo)
                      if isinstance(arg, NF) else arg for arg in a[3])
     if new_args != a[3]:
